@@ -112,9 +112,9 @@ func c15Selection(rng *rand.Rand, dir string, hostile bool) selection {
 		s.args = append(s.args, "-excludeSources", v)
 		_ = s.opts.ExcludeSources.FromString(v)
 	case 5:
-		p := regexPool[rng.Intn(len(regexPool))]
-		s.args = append(s.args, "-nameFilter", p)
-		s.opts.NameFilter = regexp.MustCompile(p)
+		re := randPattern(rng)
+		s.args = append(s.args, "-nameFilter", re.String())
+		s.opts.NameFilter = re
 	case 6:
 		v1, v2 := sources(1+rng.Intn(2)), names(1+rng.Intn(20))
 		s.args = append(s.args, "-includeSources", v1, "-excludeNames", v2)
